@@ -55,6 +55,10 @@ CLAIMED["C20"] = ("mirsym over load_overrides (bin MIR, convert_enum! conversion
     "bounded symbolic model checking of the mapping kernels: every Config field after overrides = the flag's same-named variant if present else the configuration's; every editorconfig key sets exactly its documented field; nothing else changes",
     "trusts rustc's MIR printer, mirsym, z3; serde/toml decoding, deny_unknown_fields, clap's string->enum parsing and ec4rs are outside the encoding (carrier replay only)", "5/C15-C20")
 
+CLAIMED["C18"] = ("mirsym over output_diff_json (one DiffOp of symbolic kind, indices and lengths; its filter/map closures executed) against similar's iter_changes contract, create_diff and its two callers (producer selection and argument order); z3; diff battery replay with the checker's own JSON/unified patchers",
+    "bounded symbolic model checking of the JSON line-range kernel and the diff wiring: for every DiffOp kind with indices and lengths < 2^32: start = index, end = index+len-1, `original`/`expected` are the concatenation of ALL removed/added lines, no arithmetic panic; every output format hands (original, expected) in that order to its producer; format_file/format_string diff the text read against format_code's result",
+    "trusts rustc's MIR printer, mirsym, z3, similar's TextDiff (grouped_ops / iter_changes contract) and unified_diff; the unified/standard texts themselves are produced by similar/console and only replayed, not encoded", "5/C18")
+
 CLAIMED["C15"] = ("mirsym over find_config_file (recursion inlined) / lookup_config_file_in_directory / find_toml_file / load_configuration(_for_stdin) with the file system abstracted to a symbolic directory chain and a map-summarised cache, two successive lookups; z3 against the documented precedence; directory-tree replay",
     "bounded symbolic model checking of the precedence kernels: for every existence pattern of stylua.toml/.stylua.toml on a chain of 4 directories, every cwd position or parent search: the nearest file up to the root (or XDG/HOME) is chosen, a cached second lookup (same directory or its parent) agrees; forced > found > editorconfig (unless disabled) > defaults",
     "trusts rustc's MIR printer, mirsym + Path/HashMap summaries, z3; toml decoding, ec4rs discovery and the XDG/HOME probing order are outside", "5/C15-C20")
